@@ -1,5 +1,6 @@
 //! C18 — ontology comparison reports exactly the differences.
 
+use super::common::{build_path, expected_facts, PathSel};
 use crate::build::*;
 use crate::gen::{self, name_strategy, pick, GenCfg, NameMode};
 use crate::model::*;
@@ -23,6 +24,9 @@ pub struct Case {
     pub new: Facts,
     /// the kinds of the edits that lead from old to new (for labelling only)
     pub edits: Vec<String>,
+    /// how both ontologies are constructed (default: own v3 bytes)
+    #[serde(default = "super::c13::default_path")]
+    pub path: PathSel,
 }
 
 #[derive(Debug, PartialEq, Clone, Default)]
@@ -219,9 +223,11 @@ fn explain(want: &Diff, got: &Diff) -> (String, String) {
 }
 
 pub fn check(c: &Case, stats: &mut Stats) -> CheckResult {
-    let o1 = via_binary(&c.old, 3).map_err(|e| Failure { signature: "construct/bin-v3".into(), message: e })?;
-    let o2 = via_binary(&c.new, 3).map_err(|e| Failure { signature: "construct/bin-v3".into(), message: e })?;
-    let (m1, m2) = (Model::new(&c.old), Model::new(&c.new));
+    let sig = format!("construct/{}", c.path.name());
+    let o1 = build_path(&c.old, c.path, &JaxNoise::default()).map_err(|e| Failure { signature: sig.clone(), message: e })?;
+    let o2 = build_path(&c.new, c.path, &JaxNoise::default()).map_err(|e| Failure { signature: sig.clone(), message: e })?;
+    let (m1, m2) = (Model::new(&expected_facts(&c.old, c.path)), Model::new(&expected_facts(&c.new, c.path)));
+    stats.count(&format!("path:{}", c.path.name()), 1);
     stats.eval(4);
     let want = model_diff(&m1, &m2);
     let got = observed_diff(&o1, &o2)?;
@@ -416,8 +422,9 @@ pub fn apply_edit(f: &mut Facts, kind: usize, p: [u16; 3], name: &str) -> Option
 fn strategy(tier: Tier) -> BoxedStrategy<Case> {
     let max = if tier == Tier::Quick { 12 } else { 40 };
     let cfg = GenCfg::small().terms(2, max).recs(4).standard().with_flags(true).names(NameMode::Capped);
-    (gen::facts(cfg), vec((0usize..EDIT_KINDS.len(), any::<[u16; 3]>(), name_strategy(NameMode::Plain)), 0..=4))
-        .prop_map(|(old, script)| {
+    let paths = prop_oneof![6 => Just(PathSel::Bin(3)), 2 => Just(PathSel::Bin(2)), 1 => Just(PathSel::Bin(1)), 2 => Just(PathSel::Jax), 1 => Just(PathSel::RoundTrip)];
+    (gen::facts(cfg), vec((0usize..EDIT_KINDS.len(), any::<[u16; 3]>(), name_strategy(NameMode::Plain)), 0..=4), paths)
+        .prop_map(|(old, script, path)| {
             let mut new = old.clone();
             let mut edits = Vec::new();
             for (kind, p, name) in script {
@@ -426,7 +433,7 @@ fn strategy(tier: Tier) -> BoxedStrategy<Case> {
                 }
             }
             new.ann_calls = new.canonical_ann_calls();
-            Case { old, new, edits }
+            Case { old, new, edits, path }
         })
         .boxed()
 }
@@ -436,7 +443,7 @@ impl Property for C18 {
         "C18"
     }
     fn rule(&self) -> String {
-        "Generated: a base fact set (own v3 bytes; obsolete terms, replacements to existing and to non-existing ids, records of all kinds) and an edit script of 0-4 edits out of 15 kinds (rename term, add/remove parent link, flip obsolete, set replacement to an existing / non-existing id, clear replacement, change replacement between two ids that are not terms, add/remove term, add/remove/rename record, add/remove link). Oracle: the difference computed on the two fact sets: added/removed id sets per entity kind; changed terms with exact name pair, added/removed parent sets, obsolete pair, replacement id pair; changed records with name pair, added/removed terms, n_terms; every list free of duplicates; compare(new,old) is the mirror image; compare(o,o) and compare(o, roundtrip(o)) report nothing. evaluations = comparisons. Non-trivial = the two fact sets differ; every edit kind must occur as a single-edit script in a run; distinct by hash of the case.".into()
+        "Generated: a base fact set (both ontologies built through own v3 / v2 / v1 bytes, the as_bytes round trip or JAX files; obsolete terms, replacements to existing and to non-existing ids, records of all kinds) and an edit script of 0-4 edits out of 15 kinds (rename term, add/remove parent link, flip obsolete, set replacement to an existing / non-existing id, clear replacement, change replacement between two ids that are not terms, add/remove term, add/remove/rename record, add/remove link). Oracle: the difference computed on the two fact sets: added/removed id sets per entity kind; changed terms with exact name pair, added/removed parent sets, obsolete pair, replacement id pair; changed records with name pair, added/removed terms, n_terms; every list free of duplicates; compare(new,old) is the mirror image; compare(o,o) and compare(o, roundtrip(o)) report nothing. evaluations = comparisons. Non-trivial = the two fact sets differ; every edit kind must occur as a single-edit script in a run; distinct by hash of the case.".into()
     }
     fn assumptions(&self) -> Vec<String> {
         vec!["'replacement' of a term is the replacement id stored with it (replacement_id), whether or not that id is a term of the same ontology".into()]
